@@ -462,6 +462,10 @@ func checkC07(P *Prog, r *Result) {
 	P.checkPooledSliceHeader(r, "C07/pooled-slice-header")
 	P.checkNoGlobalPooledObject(r)
 	P.checkPooledMapOwned(r, "C07/pooled-map-owned")
+	// the result of a call depends on that call alone: execution leaves nothing behind in memory that outlives it - not
+	// in globals or captures (no-global-state) and not in the schema object either (a per-type field plan cached on
+	// the schema makes the second call read the keys the first call's front end used) - C08's write-effects rule
+	shareRule(P, r, checkC08, "C08/write-effects", nil, "C07/no-state-outlives-call", 30)
 
 	// ---- release ----
 	P.checkRelease(r)
